@@ -285,7 +285,7 @@ def run(ctx):
              "{multiplex, thread-pool} x COMMTIMEOUT {0, 3} x {roomy pool, pool of one held by the witness}; attacker, witness (three token calls) and a later fresh client "
              "run under all interleavings within the per-config budget on the real requestLoop; oracle: witness tokens exact, fresh client served, loop thread alive, "
              "busy/idle resp. selector map restored; distinct = observation classes" % ns,
-        extra={"configs": len(cfgs)})
+        extra={"configs": len(cfgs), "budgets_p_r": sorted({(c["p"], c["r"]) for c in cfgs}), "bound_completed": "every execution within each configuration's (preemption, reordering) budget was run to completion"})
     return {"violations": stats.violations, "coverage": cov,
             "assumptions": ["hostile input arrives in whole writes per step (byte-level fragmentation is C06/C17's subject)",
                             "a peer that sends a partial message and stays connected legitimately keeps a multiplex server waiting until it disconnects or COMMTIMEOUT fires"]}
